@@ -1509,89 +1509,139 @@ func (l *Lang) EmptyListLiteral() *report.RuleResult {
 // accumulator is replaced.
 func (l *Lang) FoldSpan() *report.RuleResult {
 	res := report.NewResult("fold-span")
+	// the fold loops may stand in the action or in a function of the package the action calls
+	// (`$$ = p.foldAccessChain($$, $4)`): every function of the package is searched, and the floor counts
+	// the actions that fold - directly or through such a function -, not the copies of the loop
+	info := l.info()
+	folding := map[*types.Func]bool{}
+	inAction := map[ast.Node]bool{}
+	for n := 1; n < len(l.Actions); n++ {
+		if a := l.Actions[n]; a != nil && a.Clause != nil {
+			inAction[a.Clause] = true
+		}
+	}
+	for _, f := range l.Pkg.Syntax {
+		for _, d := range f.Decls {
+			fd, ok := d.(*ast.FuncDecl)
+			if !ok || fd.Body == nil {
+				continue
+			}
+			hasAction := false
+			ast.Inspect(fd.Body, func(nd ast.Node) bool {
+				if inAction[nd] {
+					hasAction = true
+				}
+				return !hasAction
+			})
+			if hasAction {
+				continue // the parser's driver: its actions are visited one by one below
+			}
+			if l.foldSteps(res, fd.Body, "func "+fd.Name.Name, fd.Name.Name) > 0 {
+				if fn, ok := info.Defs[fd.Name].(*types.Func); ok {
+					folding[fn] = true
+				}
+			}
+		}
+	}
 	for n := 1; n < len(l.Actions); n++ {
 		a := l.Actions[n]
 		if a == nil || a.Clause == nil {
 			continue
 		}
-		loopNo := 0
+		k := l.foldSteps(res, a.Clause, fmt.Sprintf("%s:%s", l.L.Label, l.L.G.Key(a.Prod)), a.Prod.String())
 		ast.Inspect(a.Clause, func(nd ast.Node) bool {
-			ts, ok := nd.(*ast.TypeSwitchStmt)
-			if !ok {
-				return true
-			}
-			as, ok := ts.Assign.(*ast.AssignStmt)
-			if !ok || len(as.Lhs) != 1 {
-				return true
-			}
-			bound, ok := as.Lhs[0].(*ast.Ident)
-			if !ok {
-				return true
-			}
-			loopNo++
-			for _, c := range ts.Body.List {
-				cc := c.(*ast.CaseClause)
-				if len(cc.List) != 1 {
-					continue
-				}
-				// statements of the clause, in order
-				accAssign, posAssign := -1, -1
-				var acc string
-				var posCall *ast.CallExpr
-				for i, st := range cc.Body {
-					s, ok := st.(*ast.AssignStmt)
-					if !ok || len(s.Lhs) != 1 || len(s.Rhs) != 1 {
-						continue
-					}
-					if id, ok := s.Rhs[0].(*ast.Ident); ok && id.Name == bound.Name && accAssign < 0 {
-						if _, isSel := s.Lhs[0].(*ast.SelectorExpr); isSel || true {
-							lhs := types.ExprString(s.Lhs[0])
-							if !strings.HasPrefix(lhs, bound.Name+".") {
-								accAssign, acc = i, lhs
-							}
-						}
-					}
-					if se, ok := s.Lhs[0].(*ast.SelectorExpr); ok && se.Sel.Name == "Position" {
-						if id, ok := se.X.(*ast.Ident); ok && id.Name == bound.Name {
-							if call, ok := s.Rhs[0].(*ast.CallExpr); ok && posAssign < 0 {
-								posAssign, posCall = i, call
-							}
-						}
-					}
-				}
-				if accAssign < 0 || posAssign < 0 {
-					continue // not a fold step that re-positions the link
-				}
-				res.Count("fold-steps", 1)
-				key := fmt.Sprintf("%s:%s/fold#%d/%s", l.L.Label, l.L.G.Key(a.Prod), loopNo, types.ExprString(cc.List[0]))
-				pos := l.Prog.Pos(cc.Pos())
-				var bad []string
-				if posAssign > accAssign {
-					bad = append(bad, fmt.Sprintf("the span is computed after `%s = %s`: it runs from the link to itself, and the node does not contain what was accumulated before it", acc, bound.Name))
-				}
-				if len(posCall.Args) == 2 {
-					a0, a1 := types.ExprString(posCall.Args[0]), types.ExprString(posCall.Args[1])
-					if a0 != acc {
-						bad = append(bad, fmt.Sprintf("the span starts at %s, not at the accumulated expression %s", a0, acc))
-					}
-					if a1 != bound.Name {
-						bad = append(bad, fmt.Sprintf("the span ends at %s, not at the link %s", a1, bound.Name))
-					}
-				} else {
-					bad = append(bad, "the span is not computed from the accumulated expression and the link")
-				}
-				if len(bad) == 0 {
-					res.OK(key, pos, a.Prod.String(), "span from the accumulated expression to the link, computed before the accumulator is replaced")
-				} else {
-					res.Bad(key, pos, a.Prod.String(), strings.Join(bad, "; "))
+			if call, ok := nd.(*ast.CallExpr); ok {
+				if fn, ok := typeutil.Callee(info, call).(*types.Func); ok && folding[fn] {
+					k++
 				}
 			}
 			return true
 		})
+		if k > 0 {
+			res.Count("folding-actions", 1)
+		}
 	}
 	return res
 }
 
+// foldSteps checks the fold steps under root and returns their number.
+func (l *Lang) foldSteps(res *report.RuleResult, root ast.Node, keyPrefix, subject string) int {
+	loopNo := 0
+	steps := 0
+	ast.Inspect(root, func(nd ast.Node) bool {
+		ts, ok := nd.(*ast.TypeSwitchStmt)
+		if !ok {
+			return true
+		}
+		as, ok := ts.Assign.(*ast.AssignStmt)
+		if !ok || len(as.Lhs) != 1 {
+			return true
+		}
+		bound, ok := as.Lhs[0].(*ast.Ident)
+		if !ok {
+			return true
+		}
+		loopNo++
+		for _, c := range ts.Body.List {
+			cc := c.(*ast.CaseClause)
+			if len(cc.List) != 1 {
+				continue
+			}
+			// statements of the clause, in order
+			accAssign, posAssign := -1, -1
+			var acc string
+			var posCall *ast.CallExpr
+			for i, st := range cc.Body {
+				s, ok := st.(*ast.AssignStmt)
+				if !ok || len(s.Lhs) != 1 || len(s.Rhs) != 1 {
+					continue
+				}
+				if id, ok := s.Rhs[0].(*ast.Ident); ok && id.Name == bound.Name && accAssign < 0 {
+					lhs := types.ExprString(s.Lhs[0])
+					if !strings.HasPrefix(lhs, bound.Name+".") {
+						accAssign, acc = i, lhs
+					}
+				}
+				if se, ok := s.Lhs[0].(*ast.SelectorExpr); ok && se.Sel.Name == "Position" {
+					if id, ok := se.X.(*ast.Ident); ok && id.Name == bound.Name {
+						if call, ok := s.Rhs[0].(*ast.CallExpr); ok && posAssign < 0 {
+							posAssign, posCall = i, call
+						}
+					}
+				}
+			}
+			if accAssign < 0 || posAssign < 0 {
+				continue // not a fold step that re-positions the link
+			}
+			steps++
+			res.Count("fold-steps", 1)
+			key := fmt.Sprintf("%s/fold#%d/%s", keyPrefix, loopNo, types.ExprString(cc.List[0]))
+			pos := l.Prog.Pos(cc.Pos())
+			var bad []string
+			if posAssign > accAssign {
+				bad = append(bad, fmt.Sprintf("the span is computed after `%s = %s`: it runs from the link to itself, and the node does not contain what was accumulated before it", acc, bound.Name))
+			}
+			if len(posCall.Args) == 2 {
+				a0, a1 := types.ExprString(posCall.Args[0]), types.ExprString(posCall.Args[1])
+				if a0 != acc {
+					bad = append(bad, fmt.Sprintf("the span starts at %s, not at the accumulated expression %s", a0, acc))
+				}
+				if a1 != bound.Name {
+					bad = append(bad, fmt.Sprintf("the span ends at %s, not at the link %s", a1, bound.Name))
+				}
+			} else {
+				bad = append(bad, "the span is not computed from the accumulated expression and the link")
+			}
+			if len(bad) == 0 {
+				res.OK(key, pos, subject, "span from the accumulated expression to the link, computed before the accumulator is replaced")
+			} else {
+				res.Bad(key, pos, subject, strings.Join(bad, "; "))
+			}
+		}
+		return true
+	})
+	return steps
+}
 
 // ---- nil-deref ---------------------------------------------------------------------------------------------
 //
